@@ -197,15 +197,46 @@ func (p *contractPayment) GetBalance(account store.Account) (*big.Int, error) {
 		return nil, errors.New("failed to get balance: empty account")
 	}
 	timer := time.Now()
-	r, err := p.contract.Accounts(&bind.CallOpts{Pending: true}, common.HexToAddress(string(account)))
+	addr := common.HexToAddress(string(account))
+	r, err := p.contract.Accounts(&bind.CallOpts{Pending: true}, addr)
 	if err != nil {
 		return nil, err
 	}
 	if r.TimeLocked.Cmp(zeroInt) != 0 {
 		return nil, ErrDepositTimelocked
 	}
-	logger.Printf("Retrieved contract balance for %q in %s: %d", account, time.Now().Sub(timer), r.Balance)
+	// The pending state includes transactions that may never be mined (a
+	// deposit that its sender replaces or that is dropped). Only count what
+	// both the pending and the mined state agree on at least.
+	mined, err := p.contract.Accounts(&bind.CallOpts{Pending: false}, addr)
+	if err != nil {
+		return nil, err
+	}
+	if mined.TimeLocked.Cmp(zeroInt) != 0 {
+		return nil, ErrDepositTimelocked
+	}
+	logger.Printf("Retrieved contract balance for %q in %s: %d (mined: %d)", account, time.Now().Sub(timer), r.Balance, mined.Balance)
+	if cmp := r.Balance.Cmp(mined.Balance); cmp != 0 {
+		// Something is on its way. There will be a Balance event if it gets
+		// mined, but none if it does not: don't keep this value.
+		balance := r.Balance
+		if cmp > 0 {
+			balance = mined.Balance
+		}
+		return nil, unconfirmedBalance{balance}
+	}
 	return r.Balance, nil
+}
+
+// unconfirmedBalance is returned by GetBalance as an error carrying the
+// balance when transactions that change it are pending: it is good for the
+// request at hand, but not for the cache.
+type unconfirmedBalance struct {
+	balance *big.Int
+}
+
+func (u unconfirmedBalance) Error() string {
+	return fmt.Sprintf("balance %d has unconfirmed changes", u.balance)
 }
 
 // OpSettle replaces the current on-chain balance for account with newBalance
